@@ -75,7 +75,9 @@ def _schema(ctx):
     only when the extraction fails (then the anchor obligation has already failed)"""
     try:
         a = _extract(ctx)
-        return {"v1": a["v1_schema"], "v2": a["v2_schema"]}, a
+        return {"v1": a["v1_schema"], "v2": a["v2_schema"],
+                "v1_conv": [l for l, _, sh in a["v1_map"] if sh != "KCopy"],
+                "v2_conv": [l for l, _, sh in a["v2_map"] if sh != "KCopy"]}, a
     except Exception as ex:  # noqa: BLE001
         ctx.note("schema extraction failed (%r); generator falls back to the committed field lists" % (ex,))
         return json.load(open(FALLBACK_SCHEMA)), None
@@ -269,6 +271,9 @@ def run(ctx, known, built):
     notes = {}
     for m in meta:
         inp = {k: m[k] for k in ("label", "version", "rot", "request", "request_name", "fontinfo", "lib", "features_fea")}
+        if m.get("writer_roundtrip") is False:
+            ctx.disagreements.append({"what": "harness: a generated plist does not parse back to the intended values",
+                                      "index": m["index"], "input": inp})
         if m.get("panic") is not None:
             ctx.violations.append({"input": inp, "index": m["index"], "implementation": "panic: %s" % m["panic"],
                                    "demand": "Font::load returns a font or an error"})
